@@ -18,7 +18,8 @@ DETACH = ['\n\n', ' \n \n', ',', '.', '%c\n', '\n\n\n', ' \n\n ', '!']
 ATTACH_R = ['', ' ', '\n', ' \n ']
 DETACH_R = ['\n\n', ',', '%c\n']
 BRACE_BODIES = ['a', '', 'x y', '{b}', ']', '[', '[x', 'a]b', '\\bar{z}', 'a\nb',
-                '$m$', '\\%', '{]}', '[[', '\\bar[o]{z}', ' ', '\n', '%c\n']
+                '$m$', '\\%', '{]}', '[[', '\\bar[o]{z}', ' ', '\n', '%c\n',
+                'p q {r} \\bar{z} ] s', 'a b c d ] e [ f', '{u} {v} ] {w}']
 BRACKET_BODIES = ['a', '', 'x y', '{]}', '{[}', '[', '(', '{a]}', '\\bar{z}',
                   '{b}', 'a\nb', '\\bar[o]', '$m$', '\\]x' if False else 'k']
 TAILS = ['', ' tail', '.x', '\n\nzz', 'x', ' \n', '\\other', '(1)']
